@@ -308,7 +308,8 @@ CLASS_NAMING = [{}] + [{'rename': s} for s in STY] + [{'in_rename': s} for s in 
                [{'out_rename': s} for s in STY] + [{'in_rename': ['snake', s], 'out_rename': s} for s in ('camel', 'kebab')]
 FIELD_NAMING = [{}, {'rename': 'ren_x'}, {'rename': 'renX'}, {'aliases': ['al_x', 'alX']}, {'in_names': ['in_x', 'my_field']},
                 {'in_names': ['only_other']}, {'out_name': 'out_x'}, {'out_name': 'my_field'},
-                {'aliases': ['al_x'], 'out_name': 'al_x'}, {'in_names': ['in_x'], 'out_name': 'in_x'}]
+                {'aliases': ['al_x'], 'out_name': 'al_x'}, {'in_names': ['in_x'], 'out_name': 'in_x'},
+                {'aliases': ['\xb5m']}]       # (an input name that Unicode normalisation would change: names are compared as written)
 FORMATS = [('struct', ['struct']), ('struct', ['tuple']), ('struct', ['struct', 'tuple']),
            ('tuple', ['struct']), ('tuple', ['tuple']), ('tuple', ['struct', 'tuple'])]
 PLACEMENT = [(False, False), (True, False), (False, True)]          # (first field kw_only, second field kw_only)
